@@ -103,7 +103,7 @@ typedef struct vf_world {
     vf_host   host;
     uint8_t   fill;           /* byte pattern of freshly allocated memory */
     /* dynamic */
-    struct { uint32_t icon_epoch; } env;   /* platform state the environment may change (part of every snapshot and key) */
+    struct { uint32_t icon_epoch; uint32_t mtu_alt; } env;      /* mtu_alt: the interfaces' MTU was changed at run time (1500 <-> 9216, others -> 1500) */   /* platform state the environment may change (part of every snapshot and key) */
     uint64_t  now_ms;
     vf_ledger led;
     vf_faultplan fp;
